@@ -309,6 +309,18 @@ fn guards(c: &Case) -> CaseResult {
         let fb = fixed_bases::<BlstrsEmulation>(&prefix, keys.vk.vk());
         let acc = vpcore::catch(|| Accumulator::<BlstrsEmulation>::from_dual_msm(g.clone(), &prefix, &fb)).map_err(|p| Failure::new("Accumulator::from_dual_msm:panic", p))?;
         let ok = acc.check(&tau, &fb);
+        // the documented contract allows the map of fixed bases to be a superset (e.g. the bases of
+        // several verifying keys): the verdict must not depend on the unused entries
+        {
+            let mut sup: BTreeMap<String, G1Projective> = BTreeMap::new();
+            for (n, f) in ALL_FIX.iter().enumerate() {
+                sup.extend(fixed_bases::<BlstrsEmulation>(&format!("vk{n}"), e6::keys(*f).vk.vk()));
+                sup.extend(fixed_bases::<BlstrsEmulation>(&format!("aaa{n}"), e6::keys(*f).vk.vk()));
+            }
+            sup.extend(fb.clone());
+            let ok_sup = vpcore::catch(|| acc.check(&tau, &sup)).map_err(|p| Failure::new("Accumulator::check:superset-of-fixed-bases:panic", p))?;
+            ensure!(ok_sup == ok, "accumulator-check-depends-on-unused-fixed-bases", "member {:?}: check with its own fixed bases = {ok}, with a superset (bases of all fixture keys, some names sorting before its own) = {ok_sup}", c.members[*i]);
+        }
         ensure!(ok == each[j], "accumulator-check-differs-from-guard", "member {:?}: acc.check {ok}, guard {}", c.members[*i], each[j]);
         let mut collapsed = acc.clone();
         collapsed.collapse();
